@@ -81,6 +81,10 @@ structure Check where
   name : Str
   kinds : List Str
   run : Env → M (Option PRaw)
+  /-- does the decision compare source positions (only `django_mark_safe` does)?  All other checks
+  are run on the position-erased visit: what they decide cannot depend on line numbers, and *where*
+  they report is a `LocSel` the tester resolves. -/
+  usesPos : Bool := false
 
 /-- A plugin check: plugins never name their test ID (the tester fills it in), which the
 constructor makes true by construction. -/
@@ -157,9 +161,13 @@ def PRaw.resolve (v : Visit) (p : PRaw) : Raw :=
 the tester fills it in; only the blacklist names the matching rule's ID itself. -/
 def fillId (c : Check) (raw : Raw) : Raw := if raw.id.isEmpty then { raw with id := c.id } else raw
 
+/-- the environment a check decides on -/
+def Env.forCheck (env : Env) (c : Check) : Env :=
+  if c.usesPos then env else { env with v := env.v.erase }
+
 /-- `run_tests` for one check on one context. -/
 def runCheck (nm : NosecMap) (env : Env) (c : Check) : List Event :=
-  match c.run env with
+  match c.run (env.forCheck c) with
   | .error _ => [.crash c.name]
   | .ok none => []
   | .ok (some praw) =>
